@@ -334,7 +334,7 @@ pub fn run(rep: &Arc<Report>) {
     let evals = Counter::new();
     let in_domain = Counter::new();
     let ood = Counter::new();
-    let (states, transitions) = for_each_string(SIGMA_TPL, n, |_w, tpl| {
+    let visit = |tpl: &str| {
         for d in DIALECTS {
             for nvals in 0..=3usize {
                 evals.inc();
@@ -365,7 +365,17 @@ pub fn run(rep: &Arc<Report>) {
                 }
             }
         }
+    };
+    let (states, transitions) = for_each_string(SIGMA_TPL, n, |_w, tpl| visit(tpl));
+    // second pass: the alphabet extended by the bracket delimiters, one symbol shorter; only templates that contain one
+    let mut ext: Vec<char> = SIGMA_TPL.to_vec();
+    ext.extend(['[', ']']);
+    let (states_x, transitions_x) = for_each_string(&ext, n - 1, |_w, tpl| {
+        if tpl.contains('[') || tpl.contains(']') {
+            visit(tpl);
+        }
     });
+    let (states, transitions) = (states + states_x, transitions + transitions_x);
     rep.set("alphabet", json!(SIGMA_TPL.iter().map(|c| c.to_string()).collect::<Vec<_>>()));
     rep.set("max_len", json!(n));
     rep.set("value_list_lengths", json!([0, 1, 2, 3]));
